@@ -133,6 +133,16 @@ fn main() {
                         _ => {} } } rich(&mut r.expr, &mut rng); r }).collect();
                 for k in 0..(if thorough { 5 } else { 3 }) { let sd = rng.next() % 1000000 + k; let l = format!("Y {} {}", sd, show_rules(&rules)); let (i, v) = eval_line(&l, &mut stats); out.push(l, i, v);
                     // the same text through the whole-reader correspondence (first spelling of each grammar)
+                    // … and one damaged copy of it (mostly rejected: the reader model must reject exactly what the reader rejects)
+                    if k == 1 && R_LINES && gi % 2 == 0 { let (_, _, text) = eval_y(sd, &rules); let mut c: Vec<char> = text.chars().collect();
+                        for _ in 0..rng.range(1, 3) { let i = rng.below(c.len().max(1) as u64) as usize; match rng.below(4) {
+                            0 if !c.is_empty() => { c.remove(i.min(c.len() - 1)); }
+                            1 => c.insert(i.min(c.len()), *rng.pick(&['{', '}', '(', ')', '"', '\'', '~', '|', '*', '+', '?', '!', '&', '^', '#', '=', '.', '[', ']', ',', '\\', '/', ' ', '0', 'a', 'é'])),
+                            2 if !c.is_empty() => { let j = i.min(c.len() - 1); c[j] = *rng.pick(&['{', '}', '(', ')', '"', '|', '~', '\\', 'x', 'u', '0', '-']); }
+                            _ => { if c.len() > 2 { let j = i.min(c.len() - 2); c.swap(j, j + 1); } } } }
+                        let text: String = c.into_iter().collect();
+                        // counts stay bounded (the model unrolls nothing, but the real validator inlines)
+                        let l = format!("{} {}", if EXTRAS { "RX" } else { "R" }, hexs(&text)); let (i, v) = eval_line(&l, &mut stats); out.push(l, i, v); }
                     if k == 0 && R_LINES { let (_, _, text) = eval_y(sd, &rules); let l = format!("{} {}", if EXTRAS { "RX" } else { "R" }, hexs(&text)); let (i, v) = eval_line(&l, &mut stats); out.push(l, i, v); } }
             }
             // literal bodies: every escape form, valid and invalid
